@@ -3,8 +3,9 @@
 P="$1"; shift
 cd /repo || exit 2
 git diff --quiet || { echo "repo dirty"; exit 2; }
-git apply "$P" || { echo "patch does not apply"; exit 2; }
+git apply "$P" 2>/dev/null || patch -p1 -s --fuzz=3 < "$P" || { echo "patch does not apply"; git checkout -- .; exit 2; }
+find . -name '*.orig' -delete; find . -name '*.rej' -delete
 for c in "$@"; do
-  (cd /verif && ./check $c --tier ${TIER:-quick} 2>&1 | grep -E "^(VIOLATION|RESULT|KNOWN|DRIFT|MACHINERY)" | cut -c1-400 | head -${LINES_MAX:-6})
+  (cd /verif && ./check $c --tier ${TIER:-quick} 2>&1 | grep -E "^(VIOLATION|RESULT|KNOWN|DRIFT|MACHINERY)" | cut -c1-${COLS:-300} | head -${LINES_MAX:-6})
 done
 git -C /repo checkout -- . 
